@@ -32,10 +32,10 @@ def compare_views(model, iso, namespaces=None, skip_iso_if_relocated=True, count
     """API view of a live object vs. the model.  Returns [(key, detail)]."""
     problems = []
     for ns in (namespaces or model.cfg.namespaces()):
-        if ns == 'iso' and model.rr_moved is not None and skip_iso_if_relocated:
+        if ns == 'iso' and (model.rr_moved is not None or model.relocation_active()) and skip_iso_if_relocated:
             continue
         mv = model.view(ns)
-        if ns == 'rr' and model.rr_moved is not None:
+        if ns == 'rr' and model.relocation_active():
             mv = dict(mv)
             mv['/' + getattr(model, 'rr_moved_name', ('RR_MOVED', 'rr_moved'))[1]] = ('dir', None, None, None, False)
         try:
